@@ -92,6 +92,9 @@ pub enum Ctor {
     NewThenExtend(usize),
     /// `Default::default()` (empty collections only)
     Default,
+    /// like NewThenExtend, but the iterator given to `extend` panics once it has yielded its
+    /// last item (the panic is caught; the collection must be whole afterwards)
+    NewThenExtendPanicky(usize),
 }
 
 #[derive(Clone, Copy, PartialEq, Eq, Debug, Serialize, Deserialize, Hash, PartialOrd, Ord)]
